@@ -145,6 +145,10 @@ type Raft struct {
 	// The most recently committed configuration of the cluster.
 	committedConfiguration *Configuration
 
+	// Indicates that the apply loop is applying an operation to the state machine, which
+	// it does without holding the lock.
+	applying bool
+
 	// Indicates that the state of this node has to be restored before it is started:
 	// it has been stopped, which closes its log, or an attempt to restore it failed.
 	needsRestore bool
@@ -1376,6 +1380,13 @@ func (r *Raft) InstallSnapshot(
 	r.mu.Lock()
 	defer r.mu.Unlock()
 
+	// The state machine may be restored below. Wait for the operation that is being applied
+	// to it at the moment, if any: it is applied without holding the lock and must not take
+	// effect after the restore. No other operation is applied until this request is handled.
+	for r.applying && r.state != Shutdown {
+		r.applyCond.Wait()
+	}
+
 	if r.state == Shutdown {
 		return fmt.Errorf("could not execute InstallSnapshot RPC: %s is shutdown", r.id)
 	}
@@ -1841,6 +1852,7 @@ func (r *Raft) applyLoop() {
 				}
 				lastApplied := r.lastApplied
 
+				r.applying = true
 				r.mu.Unlock()
 				response := OperationResponse{
 					Operation:           operation,
@@ -1854,6 +1866,8 @@ func (r *Raft) applyLoop() {
 					operation.OperationType.String(),
 				)
 				r.mu.Lock()
+				r.applying = false
+				r.applyCond.Broadcast()
 
 				// It's possible a snapshot was installed while the lock was released.
 				// It's not safe to increment the last applied index if it has changed.
